@@ -94,5 +94,6 @@ PLAN = {
         unit("k8s", "TestC19Static", 200, 3000, seed_off=940)]},
     "C20": {"level": "exploration", "units": [
         unit("expl", "TestC20", 40, 600, replay="TestReplayC20", shrinktime="30s"),
-        unit("expl", "TestC20Flood", 4, 12, seed_off=900, shrinktime="20s")]},
+        unit("expl", "TestC20Flood", 4, 12, seed_off=900, shrinktime="20s"),
+        unit("expl", "TestC20Batch", 5, 40, seed_off=920, shrinktime="20s", waits=True)]},
 }
